@@ -309,6 +309,10 @@ func (fr *frame) fmtTyped(t types.Type, v value, verb byte, depth int, plus, sha
 			if sharp && verb == 'v' && ut.Info()&types.IsUnsigned != 0 {
 				panic(pathAbort{"unsupported", "%#v of an unsigned integer (hexadecimal Go syntax)"})
 			}
+			if si, ok := v.(SymInt); ok && !kindSigned(si.K) && kindWidth(si.K) == 64 {
+				// no signed 64-bit token covers the full unsigned range: bounded concretisation
+				v = fr.i.ex.ConcretiseBV(si.T, 24, "uint64 text")
+			}
 			switch verb {
 			case 'v', 'd':
 				return intSegs(v)
